@@ -61,6 +61,15 @@ pub fn binary<F: RawFloat, const FORMAT: u128>(num: &Number, lossy: bool) -> Ext
         return fp_zero;
     }
 
+    if power2 >= F::INFINITE_POWER {
+        // At or beyond the exponent of infinity whatever the rounding does. The
+        // invalid-float marker below is only negative for exponents below 2^15.
+        return ExtendedFloat80 {
+            mant: 0,
+            exp: F::INFINITE_POWER,
+        };
+    }
+
     // Get our shift to shift the digits to the hidden bit, or correct spot.
     // This differs for denormal floats, so do that carefully, but that's
     // relative to the current leading zeros of the float.
